@@ -128,6 +128,9 @@ THEOREMS = {
         ("HH.C12.flush_noop", "flush = Ok(()) and no state change"),
         ("HH.C12.build_hasher_depends_on_key_only", "hashers handed out by a builder depend on the key (and configuration) only"),
         ("HH.C12.hash_one_value", "hash of a value = portable 64-bit hash of (key, bytes its Hash impl feeds), in every configuration"),
+        ("HH.C12.hash_one_op", "∀ env world key writes: BuildHasher::hash_one outputs P.hash64 key (concatenation of the write calls) and leaves the world unchanged"),
+        ("HH.C12.provided_writes_op", "provided methods (Hasher::write_u8..write_usize/write_str, write_vectored loops, write_fmt) = one append of the concatenated bytes, on any hasher with the packet invariant"),
+        ("HH.C12.hash_one_of_value", "∀ target (endianness, pointer width), value shape: hash_one(value) = P.hash64 key (StdTraits.stream target value)"),
     ]),
     "C13": dict(module="HH.Props.C13", trusted=MODEL_TRUST, theorems=[
         ("HH.C13.observer_noop", "checkpoint/finish/flush/Debug leave the whole world unchanged"),
